@@ -55,7 +55,13 @@ def make_context(case, which):
         w = len(case['engines'])
         anames = ['a%d' % j for j in range(w)]
         ptypes = {anames[j]: getattr(PS, case['engines'][j]) for j in range(w)}
-        rows = [[(tuple(v) if isinstance(v, list) else v) for v in r] for r in data]
+        def cell(v, eng):
+            if eng == 'SetPS':
+                return frozenset(v)
+            if eng == 'AttributePS':
+                return bool(v)
+            return tuple(v) if isinstance(v, list) else v
+        rows = [[cell(v, case['engines'][j]) for j, v in enumerate(r)] for r in data]
         return MVContext(data=rows, pattern_types=ptypes, attribute_names=anames, object_names=names)
     from fcapy.context import FormalContext
     return FormalContext(data=[list(r) for r in data], object_names=names)
@@ -82,12 +88,43 @@ def apply_history(case, L, K, Kt):
     hist = case.get('history')
     if not hist:
         return
+    fragile = case.get('mv') and any(e in ('SetPS', 'AttributePS') for e in case['engines'])
+
+    def second_lattice(**kw):
+        """another list of concepts of the same context; building it can fail on the unchanged tree for Set /
+        Attribute structures (findings D16 / D17 of C14): then there is nothing to add"""
+        try:
+            return list(ConceptLattice.from_context(K, **kw))
+        except Exception:       # noqa
+            if fragile:
+                return []
+            raise
     L.trace_context(Kt, use_object_indices=True)
     full = None
     for op in hist:
         kind = op[0]
         n = len(L)
         inner = [i for i in range(n) if i not in (L.top, L.bottom)]
+        if kind == 'present':                      # add a concept that is already there (a no-op for the structure)
+            which = [L.top, L.bottom] + inner
+            c = L[which[op[1] % len(which)]]
+            if op[2] % 2:
+                import copy as _copy
+                c = _copy.deepcopy(c)               # an equal copy rather than the same object
+            L.add(c)
+            if op[-1] == 'trace':
+                L.trace_context(Kt, use_object_indices=True)
+            continue
+        if kind == 'merge':                        # add every concept of a second lattice of the same context
+            other = (second_lattice(algo='CbO') if op[1] % 2 == 0 else
+                     second_lattice(algo='Sofia', L_max=3 + op[2] % 4))
+            if op[2] % 3 == 0:
+                other = list(reversed(other))
+            for c in other:
+                L.add(c)
+            if op[-1] == 'trace':
+                L.trace_context(Kt, use_object_indices=True)
+            continue
         fill = not kind.endswith('_nofill')        # L.add(c, fill_up_cache=False): caches dropped, refilled lazily
         kind = kind.replace('_nofill', '')
         if kind == 'readd' and inner:              # take a concept out and put it back (indexes shift)
@@ -97,7 +134,7 @@ def apply_history(case, L, K, Kt):
             L.add(c, fill_up_cache=fill)
         elif kind in ('swap', 'add_del', 'add'):
             if full is None:
-                full = list(ConceptLattice.from_context(K, algo='CbO'))
+                full = second_lattice(algo='CbO')
             have = list(L)
             other = [c for c in full if c not in have]
             if not other:
@@ -122,7 +159,12 @@ def intent_info(case, c):
         return sorted(int(m) for m in c.intent_i)
     out = []
     for k, d in c.intent_i.items():
-        if d is None:
+        eng = case['engines'][int(k)]
+        if eng == 'SetPS':
+            out.append([int(k), None if d is None else sorted(int(x) for x in d)])
+        elif eng == 'AttributePS':
+            out.append([int(k), bool(d)])
+        elif d is None:
             out.append([int(k), None])
         elif isinstance(d, (tuple, list)):
             out.append([int(k), [canon(d[0]), canon(d[1])]])
@@ -135,7 +177,14 @@ def run_impl(case):
     def go():
         K = make_context(case, 'train')
         Kt = make_context(case, 'test')
-        L = build_lattice(case, K)
+        try:
+            L = build_lattice(case, K)
+        except Exception as e:      # noqa
+            if case.get('mv') and any(e_ in ('SetPS', 'AttributePS') for e_ in case['engines']):
+                # building pattern lattices with Set / Attribute structures can fail on the unchanged tree
+                # (findings D16 / D17 of C14): not this property's subject, the input is skipped
+                return {'skip': '%s: %s' % (type(e).__name__, str(e)[:80])}
+            raise
         apply_history(case, L, K, Kt)
         n = len(L)
         try:
@@ -174,10 +223,16 @@ def coq_cell(v):
     return '(%s, %s)' % (zint(lo), zint(hi))
 
 
-def coq_mv_intent(intent):
+def coq_mv_intent(case, intent):
     parts = []
     for k, d in intent:
-        parts.append('(%d, DIv %s)' % (k, 'None' if d is None else '(Some (%s, %s))' % (zint(d[0]), zint(d[1]))))
+        eng = case['engines'][k]
+        if eng == 'SetPS':
+            parts.append('(%d, DSet %s)' % (k, 'None' if d is None else '(Some %s)' % coq(d)))
+        elif eng == 'AttributePS':
+            parts.append('(%d, DAttr %s)' % (k, coq(bool(d))))
+        else:
+            parts.append('(%d, DIv %s)' % (k, 'None' if d is None else '(Some (%s, %s))' % (zint(d[0]), zint(d[1]))))
     return '[' + '; '.join(parts) + ']'
 
 
@@ -188,13 +243,22 @@ def coq_ctx(case, info):
     w = len(case['engines'])
     cols = []
     for j in range(w):
-        ctor = 'CInterval' if case['engines'][j] == 'IntervalPS' else 'CIntervalNp'
-        cols.append('%s [%s]' % (ctor, '; '.join(coq_cell(r[j]) for r in test)))
-    return '(TMV [%s] %d [%s])' % ('; '.join(coq_mv_intent(i) for i in info['intents']), len(test), '; '.join(cols))
+        eng = case['engines'][j]
+        if eng == 'SetPS':
+            cols.append('CSet %s' % coq([sorted(r[j]) for r in test]))
+        elif eng == 'AttributePS':
+            cols.append('CAttr %s' % coq([bool(r[j]) for r in test]))
+        else:
+            ctor = 'CInterval' if eng == 'IntervalPS' else 'CIntervalNp'
+            cols.append('%s [%s]' % (ctor, '; '.join(coq_cell(r[j]) for r in test)))
+    return '(TMV [%s] %d [%s])' % ('; '.join(coq_mv_intent(case, i) for i in info['intents']), len(test), '; '.join(cols))
 
 
 def to_coq(case, out):
     info = {'exts': [], 'intents': [], 'children': [], 'top': 0}
+    if out[0] == 'ok' and 'skip' in out[1]:
+        # skipped input: a degenerate case that checks to 0 (refusal of a monotone lattice)
+        return ('Build_c17_case [] (TFormal [] []) [] 0 true [] true (IErr %d)' % ERR_KINDS['NotImplementedError'])
     if out[0] == 'ok':
         o = out[1]
         info = o['info']
@@ -332,8 +396,9 @@ def test_table(rng, train, max_h):
 def random_history(rng):
     ops = []
     for _ in range(rng.choice([1, 1, 1, 2, 3])):
-        kind = rng.choice(['readd', 'readd', 'swap', 'swap', 'add_del', 'add', 'add', 'del'])
-        if kind != 'del' and rng.random() < 0.45:
+        kind = rng.choice(['readd', 'readd', 'swap', 'swap', 'add_del', 'add', 'add', 'del', 'del', 'del', 'present',
+                           'present', 'merge'])
+        if kind not in ('del', 'present', 'merge') and rng.random() < 0.45:
             kind += '_nofill'
         op = [kind, rng.randrange(50), rng.randrange(50)]
         if rng.random() < 0.3:
@@ -467,6 +532,90 @@ def random_mv_case(rng, max_h, history=False):
                engines=engines, history=hist, share_names=share)
 
 
+# ---- many-valued, all four pattern structures in varying column order
+ALL_ENGINES = ['IntervalPS', 'IntervalNumpyPS', 'SetPS', 'SetPS', 'AttributePS', 'AttributePS']
+
+
+def mix_cell(rng, eng, vmax=3):
+    if eng == 'SetPS':
+        return sorted(rng.sample(range(3), rng.choice([0, 1, 1, 2, 2, 3])))      # value sets, the empty one included
+    if eng == 'AttributePS':
+        return rng.random() < 0.6
+    return mv_cell(rng, vmax)
+
+
+def mix_copy(r):
+    return [list(v) if isinstance(v, list) else v for v in r]
+
+
+def mix_test(rng, train, engines, max_h):
+    w = len(engines)
+    iv = lambda v: (v[0], v[1]) if isinstance(v, list) else (v, v)
+    kind = rng.choice(['training', 'unseen', 'unseen', 'unseen', 'only_top', 'everything', 'outside', 'mixed', 'mixed',
+                       'train_rows_shuffled', 'redescribed'])
+    if kind == 'training':
+        return [mix_copy(r) for r in train], kind
+    if kind == 'redescribed':
+        rows = [mix_copy(r) for r in train]
+        pairs = [(i, j) for i in range(len(rows)) for j in range(i) if rows[i] != rows[j]]
+        if not pairs:
+            return rows, 'training'
+        i, j = rng.choice(pairs)
+        rows[i], rows[j] = rows[j], rows[i]
+        return rows, 'redescribed:swap_rows'
+    if kind == 'train_rows_shuffled':
+        return [mix_copy(rng.choice(train)) for _ in range(rng.randint(1, max_h))], kind
+
+    def extreme(which):
+        row = []
+        for j, eng in enumerate(engines):
+            col = [r[j] for r in train]
+            if eng == 'SetPS':
+                row.append({'only_top': sorted(set().union(*[set(v) for v in col])), 'everything': [],
+                            'outside': [7]}[which])
+            elif eng == 'AttributePS':
+                row.append({'only_top': False, 'everything': True, 'outside': False}[which])
+            else:
+                lo, hi = min(iv(v)[0] for v in col), max(iv(v)[1] for v in col)
+                row.append({'only_top': [lo, hi], 'everything': max(iv(v)[0] for v in col),
+                            'outside': hi + 1 + rng.randint(0, 2)}[which])
+        return row
+    h = rng.randint(1, max_h)
+    if kind in ('only_top', 'everything', 'outside'):
+        return [extreme(kind) for _ in range(h)], kind
+    rows = [[mix_cell(rng, engines[j], 4) for j in range(w)] for _ in range(h)]
+    if kind == 'mixed':
+        rows[rng.randrange(h)] = extreme('only_top')
+        rows[rng.randrange(h)] = extreme('outside')
+        if rng.random() < 0.5:
+            rows[rng.randrange(h)] = mix_copy(rng.choice(train))
+    return rows, kind
+
+
+def random_mvmix_case(rng, max_h, history=False):
+    h, w = rng.randint(2, min(max_h, 5)), rng.randint(2, 3)
+    engines = [rng.choice(ALL_ENGINES) for _ in range(w)]
+    if not any(e in ('SetPS', 'AttributePS') for e in engines):
+        engines[rng.randrange(w)] = rng.choice(['SetPS', 'AttributePS'])
+    if 'AttributePS' in engines and rng.random() < 0.6:
+        # an attribute-like column placed AFTER another column (the narrowing of the earlier columns must survive)
+        j = engines.index('AttributePS')
+        engines[j], engines[-1] = engines[-1], engines[j]
+    train = [[mix_cell(rng, engines[j]) for j in range(w)] for _ in range(h)]
+    algo = rng.choice(['CbO', 'CbO', 'Sofia', 'Sofia', 'sub'])
+    L_max, keep = 100, None
+    if algo == 'Sofia':
+        L_max = rng.choice([3, 4, 6, 100])
+    if algo == 'sub':
+        keep = sorted(rng.sample(range(1, 14), rng.randint(3, 10)))
+    test, tk = mix_test(rng, train, engines, max_h + 1)
+    names = rng.sample(range(60), len(test))
+    hist = random_history(rng) if history else None
+    share = tk.startswith('redescribed') or (tk == 'training' and rng.random() < 0.5)
+    return _mk(train, algo, test, names, rng.random() < 0.5, L_max, keep, False, 'mvmix', tk, mv=True,
+               engines=engines, history=hist, share_names=share)
+
+
 def exhaustive_cases():
     for (h, w) in ((2, 3), (3, 2)):
         tests = list(gen.all_tables(2, w))
@@ -480,16 +629,19 @@ def generate(rng, tier):
     ex = list(exhaustive_cases())
     if tier == 'thorough':
         cases = ex
-        n_rand, n_mv, n_hist, dim = 16000, 7000, 5000, 6
+        n_rand, n_mv, n_mix, n_hist, dim = 16000, 5000, 5000, 6000, 6
     else:
         cases = rng.sample(ex, 300)
-        n_rand, n_mv, n_hist, dim = 1300, 600, 500, 5
+        n_rand, n_mv, n_mix, n_hist, dim = 1200, 400, 450, 550, 5
     for _ in range(n_rand):
         cases.append(random_case(rng, dim))
     for _ in range(n_mv):
         cases.append(random_mv_case(rng, dim))
+    for _ in range(n_mix):
+        cases.append(random_mvmix_case(rng, dim))
     for k in range(n_hist):
-        cases.append(random_mv_case(rng, dim, history=True) if k % 4 == 0 else random_case(rng, dim, history=True))
+        cases.append(random_mv_case(rng, dim, history=True) if k % 5 == 0 else
+                     random_mvmix_case(rng, dim, history=True) if k % 5 == 1 else random_case(rng, dim, history=True))
     return cases
 
 
@@ -497,6 +649,8 @@ def nontrivial(case):
     t = case['test']
     if len({repr(r) for r in t}) < 2 or case.get('mono'):
         return False
+    if case.get('mv') and any(e in ('SetPS', 'AttributePS') for e in case['engines']):
+        return len(case['train']) >= 3
     if case.get('mv'):
         return mv_extents(case['train']) >= 4
     k = n_extents(case['train'])
@@ -516,6 +670,8 @@ def stats(case):
          'train_shape': '%dx%d' % (len(case['train']), len(case['train'][0])), 'test_rows': len(t)}
     if case.get('mv'):
         d['engines'] = '+'.join(sorted(set(case['engines'])))
+        if 'AttributePS' in case['engines']:
+            d['AttributePS column'] = 'first' if case['engines'].index('AttributePS') == 0 else 'after another column'
     else:
         d['train_concepts'] = min(n_extents(case['train']), 20)
     for op in case.get('history') or []:
